@@ -119,6 +119,38 @@ def real(term):
     return bytes(term)
 
 
+def coq_eval_files(prop, preamble, exprs, nshards=16, timeout=1500):
+    """like common.coq_eval, but every shard writes to a file (a PIPE serialises the shards once outputs exceed 64 KB);
+    exprs are dealt round-robin so that heavy neighbours land in different shards"""
+    import subprocess
+    os.makedirs(common.CASES, exist_ok=True)
+    nshards = max(1, min(nshards, (len(exprs) + 3) // 4))
+    shards = [list(range(k, len(exprs), nshards)) for k in range(nshards)]
+    procs = []
+    for k, idxs in enumerate(shards):
+        path = os.path.join(common.CASES, f"{prop}_cases_{k}.v")
+        with open(path, "w") as f:
+            f.write(preamble + "\nSet Printing Width 1000000.\nSet Printing Depth 1000000.\n")
+            for j in idxs:
+                f.write(f'Goal True. idtac "@@CASE {j}". exact I. Qed.\nEval vm_compute in ({exprs[j]}).\n')
+        out = open(path + ".out", "w")
+        procs.append((k, path, out, subprocess.Popen(f"timeout {timeout} coqc -noglob -Q {common.COQ} C2PA {path}", shell=True,
+                                                     cwd=common.CASES, stdout=out, stderr=subprocess.STDOUT)))
+    results = [None] * len(exprs)
+    for k, path, out, pr in procs:
+        rc = pr.wait()
+        out.close()
+        txt = open(path + ".out").read()
+        if rc != 0:
+            raise TieBroken(f"model evaluation failed for {prop} shard {k} (rc {rc}): {txt[-600:]}")
+        parts = re.split(r"@@CASE (\d+)\n", txt)
+        for i in range(1, len(parts), 2):
+            body = parts[i + 1].strip()
+            m = re.match(r"=\s*(.*)\n\s*:\s[^\n]*\Z", body, re.S) or re.match(r"=\s*(.*?)\s*:\s[^:]*\Z", body, re.S)
+            results[int(parts[i])] = common.parse_coq_term(m.group(1) if m else body)
+    return results
+
+
 PREAMBLE = """From C2PA Require Import Base.Bytes Model.Merkle.
 From Coq Require Import NArith List Arith.
 Import ListNotations.
@@ -143,6 +175,7 @@ Definition c16_checks (L : list bytes) (count : nat) (row : list ref) (cs : list
   let rw := map (res T) row in
   map (fun c => match c with (h, loc, p) =>
          check_merkle_tree Hsym count rw (res T h) loc (option_map (map (res T)) p) end) cs.
+Open Scope N_scope.
 """
 
 
@@ -153,7 +186,7 @@ def coq_leaves(leaves):
 def model_expr(c):
     L = coq_leaves([bytes.fromhex(x) for x in c["leaves"]])
     if c["k"] == "tree":
-        return f"c16_tree {L} {c['m']} {coq_list([str(i) for i in c['idx']])}"
+        return f"c16_tree {L} {c['m']} {coq_list([str(i) for i in c['idx']])}%nat"
     if c["k"] == "sweep":
         return f"c16_sweep {L} {c['mmax']}"
     cs = []
@@ -351,12 +384,8 @@ def single(c, k):
 def evaluate(ctx, cases, model_ids):
     impl = common.run_harness("c16", [harness_case(c) for c in cases])
     mcases = [c for c in cases if c["id"] in model_ids]
-    # balance the shards: heavy cases (many leaves) are spread round-robin over the consecutive slices coq_eval makes
-    mcases.sort(key=lambda c: -len(c["leaves"]) * (40 if c["k"] == "sweep" else 1))
-    nsh = 16 if len(mcases) >= 64 else 1
-    size = (len(mcases) + nsh - 1) // nsh or 1
-    mcases = [x for s_ in range(nsh) for x in mcases[s_::nsh]]
-    model = common.coq_eval("C16", PREAMBLE, [model_expr(c) for c in mcases], shard_size=size)
+    mcases.sort(key=lambda c: -len(c["leaves"]) * (40 if c["k"] == "sweep" else 1))     # heavy first, dealt round-robin
+    model = coq_eval_files("C16", PREAMBLE, [model_expr(c) for c in mcases])
     mres = {c["id"]: model[k] for k, c in enumerate(mcases)}
     st = {"sweep_checks": 0, "tree_proofs": 0, "presentations": 0, "expected": {"accept": 0, "reject": 0, "unspecified": 0},
           "mutation_kinds": {}, "leaf_counts": {"1": 0, "2-8": 0, "9-64": 0, "65-300": 0}, "model_cases": len(mcases),
@@ -454,16 +483,15 @@ def build_cases(ctx, model=True):
     cases = corpus()
     sweeps = [sweep_case(n) for n in range(1, 301)]                      # exhaustive on the implementation, every tier
     cases += sweeps
-    cases += [tree_case(ctx.rng, 80 if q else 300) for _ in range(60 if q else 500)]
-    cases += [mutation_case(ctx.rng, 40 if q else 300) for _ in range(150 if q else 1500)]
-    cases += [malformed_case(ctx.rng) for _ in range(40 if q else 400)]
+    cases += [tree_case(ctx.rng, 80 if q else 300) for _ in range(60 if q else 300)]
+    cases += [mutation_case(ctx.rng, 40 if q else 300) for _ in range(150 if q else 1000)]
+    cases += [malformed_case(ctx.rng) for _ in range(40 if q else 300)]
     for i, c in enumerate(cases):
         c["id"] = i
-    if q:
-        big = ctx.rng.sample(range(41, 301), 6)
-        model_ids = {c["id"] for c in cases if c["k"] != "sweep" or len(c["leaves"]) <= 40 or len(c["leaves"]) in big}
-    else:
-        model_ids = {c["id"] for c in cases}
+    # the model is evaluated on every non-sweep case and on the sweeps of all small leaf counts plus sampled larger ones
+    small, nbig = (40, 6) if q else (128, 24)
+    big = ctx.rng.sample(range(small + 1, 301), nbig)
+    model_ids = {c["id"] for c in cases if c["k"] != "sweep" or len(c["leaves"]) <= small or len(c["leaves"]) in big}
     return cases, model_ids
 
 
@@ -484,7 +512,7 @@ def run(ctx):
         "distinct_nontrivial": distinct,
         "rule": "implementation: every leaf count 1..300 x every index x every max-proof depth 0..11 (generated proof, Some and stored form) "
                 "+ seeded trees (layers/proofs compared hash by hash) + seeded presentations (14 mutation kinds) + malformed count/row pairs; "
-                "model evaluated on the same cases (quick: sweeps for n <= 40 and 6 sampled larger n; thorough: all); "
+                "model evaluated on the same cases (sweeps: n <= 40 and 6 sampled larger n in quick, n <= 128 and 24 sampled in thorough); "
                 "distinct by (kind, first leaf, leaf count, depth)",
         "distribution": st,
         "cases": len(cases),
